@@ -50,7 +50,7 @@ add('C03', ['C03Code', 'C03', 'C03Fenced', 'C03X'], ['corr.code', 'corr.pipeline
 add('C04', ['C04', 'C04Text'], ['corr.extract', 'corr.htmltok', 'corr.pipelineh'],
     'Lean 4 proofs over an event-level model of HTMLExtractor (state machine over tokenizer events) and of the raw-HTML restore: a balanced block is stashed verbatim exactly once and restored unwrapped; events recorded from the real parser are replayed in the model',
     'PARTIAL: the stdlib tokenizer that produces the events is trusted, not modelled (F-C04-1 lives there); blocks starting while `intail`, md_in_html and multi-pass restore are covered by correspondence/search only.')
-add('C05', ['C05Block', 'C05', 'C05Amp', 'C05Full', 'C05X', 'C14'], PIPE + ['corr.serializer', 'corr.readers'],
+add('C05', ['C05Block', 'C05', 'C05Amp', 'C05Full', 'C05X', 'C05XFull', 'C14'], PIPE + ['corr.serializer', 'corr.readers'],
     'Lean 4 proofs: vocabulary/void invariant of every tree the block (and inline) model builds + serializer round-trip theorem (strict reader accepts the output and reads back the tree)',
     'PARTIAL: the composition to the final output string is proved as far as Props/C05*.lean state; the `&`/entity-stash case rests on correspondence. "Entity reference" is read as the code reads it (digit-initial names allowed).')
 add('C06', ['C06Block', 'C06Inline', 'C06', 'C06Links'], PIPE,
